@@ -159,6 +159,16 @@ type Client struct {
 	read      int  // Inbox index up to which the test has consumed
 	nextPID   uint16
 	DecodeErr error
+	Sent      []Tx // every write made through SendRaw/Send, in order
+}
+
+// Tx is one write of a scripted client (for packets sent whole: type, flags, length).
+type Tx struct {
+	Type  byte
+	Flags byte
+	Len   int
+	Stamp int64
+	PID   uint16
 }
 
 // Dial opens a new connection to the broker.
@@ -178,6 +188,9 @@ func (w *World) DialCap(name string, bufcap int) *Client {
 // SendRaw writes bytes to the broker (no settle).
 func (c *Client) SendRaw(b []byte) error {
 	_, err := c.Conn.Write(b)
+	if len(b) > 0 {
+		c.Sent = append(c.Sent, Tx{Type: b[0] >> 4, Flags: b[0] & 15, Len: len(b), Stamp: vsched.Stamp()})
+	}
 	return err
 }
 
@@ -186,7 +199,29 @@ func (c *Client) Send(p *refmqtt.Packet) error {
 	if p.Version == 0 {
 		p.Version = c.Version
 	}
-	return c.SendRaw(refmqtt.Encode(p))
+	err := c.SendRaw(refmqtt.Encode(p))
+	if n := len(c.Sent); n > 0 {
+		c.Sent[n-1].PID = p.PacketID
+	}
+	return err
+}
+
+// WaitPacket blocks the calling harness thread until the broker has written another
+// packet (returned, and consumed like Recv) or closed the connection (ok=false).
+func (c *Client) WaitPacket() (Rx, bool) {
+	for {
+		c.Pump()
+		if c.read < len(c.Inbox) {
+			c.read++
+			return c.Inbox[c.read-1], true
+		}
+		if c.Conn.PeerClosed() || c.Conn.Closed() {
+			return Rx{}, false
+		}
+		vsched.WaitUntil("client.WaitPacket", func() bool {
+			return c.Conn.Buffered() > 0 || c.Conn.PeerClosed() || c.Conn.Closed()
+		})
+	}
 }
 
 // Pump parses everything the broker has written so far into Inbox.
